@@ -6,7 +6,7 @@
     E. the label-level loop on the table = the abstract trie walk of PslWalk.v on the decoded table;
     F. the theorems for any table that passes the boolean check [table_ok] against a rule list. *)
 From Coq Require Import FMapPositive ZArith ZifyBool ZifyNat ZifyN Lia.
-From PK Require Import Lib.Bytes Psl.PslSpec Psl.PslModel Psl.PslWalk.
+From PK Require Import Lib.Bytes Lib.Check Psl.PslSpec Psl.PslModel Psl.PslWalk.
 Open Scope N_scope.
 Ltac Zify.zify_post_hook ::= Z.div_mod_to_equations.
 
@@ -37,7 +37,7 @@ Lemma find_of_list {A} (l : list A) i :
 Proof.
   unfold arr_of_list; cbn [a_map]. rewrite fill_find.
   replace (N.succ_pos i <? 1)%positive with false by (symmetry; apply Pos.ltb_ge; lia).
-  replace (Pos.to_nat (N.succ_pos i) - Pos.to_nat 1)%nat with (N.to_nat i) by (rewrite N.succ_pos_spec; lia).
+  replace (Pos.to_nat (N.succ_pos i) - Pos.to_nat 1)%nat with (N.to_nat i) by (pose proof (N.succ_pos_spec i); lia).
   rewrite PositiveMap.gempty. destruct (nth_error l (N.to_nat i)); reflexivity.
 Qed.
 
@@ -233,3 +233,724 @@ Lemma skipn_app_exact {A} (a b : list A) : skipn (length a) (a ++ b) = b.
 Proof. induction a; cbn; auto. Qed.
 Lemma firstn_app_exact {A} (a b : list A) : firstn (length a) (a ++ b) = a.
 Proof. induction a; cbn; congruence. Qed.
+
+(** * D. the index/slice loop is the label-level loop *)
+
+(** The loop of [public_suffix] at the level of labels: [rest] are the labels still to be looked at
+    (from the right), [i] how many were consumed, [suf] the number of labels of the suffix found so
+    far ([None]: the initial [domain.len()..]).  Same table accesses as [ps_loop]. *)
+Fixpoint walk_tab (T : table) (lo hi : N) (w : bool) (rest : list bytes) (i : nat) (suf : option nat)
+  : res (option nat) :=
+  match rest with
+  | [] => Val suf
+  | l :: rest' =>
+      let suf1 := if w then Some (S i) else suf in
+      if lo =? hi then Val suf1 else
+      match find T l lo hi with
+      | Panic => Panic
+      | Val None => Val suf1
+      | Val (Some f) =>
+          match node_info T f with
+          | Panic => Panic
+          | Val (lo', hi', ty, w') =>
+              if ty =? NODE_TYPE_NORMAL T then walk_tab T lo' hi' w' rest' (S i) (Some (S i))
+              else if ty =? NODE_TYPE_EXCEPTION T then Val (Some i)
+              else walk_tab T lo' hi' w' rest' (S i) suf1
+          end
+      end
+  end.
+
+(** start of the last [k] labels in the name whose labels (from the right) are [ls];
+    [k = 0] gives one past the end: the exception branch's [1 + s.len()] at the first label *)
+Definition pos (ls : list bytes) (k : nat) : nat :=
+  match skipn k ls with
+  | [] => O
+  | r => S (length (join_dot (rev r)))
+  end.
+Definition spos (X : nat) (ls : list bytes) (o : option nat) : nat :=
+  match o with None => X | Some k => pos ls k end.
+
+Lemma rev_cons_nonempty {A} (x : A) l : rev (x :: l) <> [].
+Proof. cbn [rev]. destruct (rev l); discriminate. Qed.
+
+Lemma join_rev_cons l rest : rest <> [] ->
+  join_dot (rev (l :: rest)) = join_dot (rev rest) ++ DOT :: l.
+Proof.
+  intros H. cbn [rev]. rewrite join_dot_app; [reflexivity| |discriminate].
+  destruct rest; [congruence|apply rev_cons_nonempty].
+Qed.
+
+(** [s.rfind('.')] on the name with labels [l :: rest] (from the right) *)
+Lemma rfind_join l rest : nodot l ->
+  rfind_dot (join_dot (rev (l :: rest))) =
+    match rest with [] => None | _ => Some (length (join_dot (rev rest))) end.
+Proof.
+  intros Hl. destruct rest as [|l2 rest].
+  - cbn [rev app join_dot]. apply rfind_nodot, Hl.
+  - rewrite join_rev_cons by discriminate. apply rfind_app, Hl.
+Qed.
+
+Lemma pos_after pre l rest :
+  pos (pre ++ l :: rest) (S (length pre)) = match rest with [] => O | _ => S (length (join_dot (rev rest))) end.
+Proof.
+  unfold pos. replace (S (length pre)) with (length (pre ++ [l])) by (rewrite app_length; cbn; lia).
+  replace (pre ++ l :: rest) with ((pre ++ [l]) ++ rest) by (rewrite <- app_assoc; reflexivity).
+  rewrite skipn_app_exact. destruct rest; reflexivity.
+Qed.
+
+Lemma pos_here pre l rest : pos (pre ++ l :: rest) (length pre) = S (length (join_dot (rev (l :: rest)))).
+Proof. unfold pos. rewrite skipn_app_exact. reflexivity. Qed.
+
+Lemma after_rfind pre l rest : nodot l ->
+  after_or_all (rfind_dot (join_dot (rev (l :: rest)))) = pos (pre ++ l :: rest) (S (length pre)).
+Proof.
+  intros Hl. rewrite rfind_join by exact Hl. rewrite pos_after.
+  destruct rest; cbn [after_or_all]; [reflexivity|lia].
+Qed.
+
+Lemma slice_label pre l rest : nodot l ->
+  slice_from (join_dot (rev (l :: rest))) (pos (pre ++ l :: rest) (S (length pre))) = Val l.
+Proof.
+  intros Hl. rewrite pos_after. unfold slice_from. destruct rest as [|l2 rest].
+  - cbn [rev app join_dot Nat.leb skipn]. reflexivity.
+  - rewrite (join_rev_cons l (l2 :: rest)) by discriminate.
+    set (a := join_dot (rev (l2 :: rest))).
+    replace (S (length a) <=? length (a ++ DOT :: l))%nat with true
+      by (symmetry; apply Nat.leb_le; rewrite app_length; cbn [length]; lia).
+    replace (S (length a)) with (length (a ++ [DOT])) by (rewrite app_length; cbn; lia).
+    replace (a ++ DOT :: l) with ((a ++ [DOT]) ++ l) by (rewrite <- app_assoc; reflexivity).
+    rewrite skipn_app_exact. reflexivity.
+Qed.
+
+Lemma slice_to_dot l l2 rest :
+  slice_to (join_dot (rev (l :: l2 :: rest))) (length (join_dot (rev (l2 :: rest)))) = Val (join_dot (rev (l2 :: rest))).
+Proof.
+  rewrite (join_rev_cons l (l2 :: rest)) by discriminate. unfold slice_to.
+  set (a := join_dot (rev (l2 :: rest))).
+  replace (length a <=? length (a ++ DOT :: l))%nat with true
+    by (symmetry; apply Nat.leb_le; rewrite app_length; lia).
+  rewrite firstn_app_exact. reflexivity.
+Qed.
+
+Lemma ps_loop_walk T X ls : Forall nodot ls -> forall rest pre fuel lo hi w suf,
+  ls = pre ++ rest -> rest <> [] -> (length (join_dot (rev rest)) < fuel)%nat ->
+  ps_loop T fuel lo hi (join_dot (rev rest)) (spos X ls suf) w =
+    match walk_tab T lo hi w rest (length pre) suf with
+    | Val o => Val (spos X ls o)
+    | Panic => Panic
+    end.
+Proof.
+  intros Hnd. induction rest as [|l rest IH]; intros pre fuel lo hi w suf Els Hne Hfuel; [congruence|].
+  assert (Hl : nodot l).
+  { rewrite Forall_forall in Hnd. apply Hnd. rewrite Els. apply in_or_app. right. now left. }
+  destruct fuel as [|fuel]; [lia|].
+  cbn [ps_loop walk_tab].
+  set (s := join_dot (rev (l :: rest))) in *.
+  set (i := length pre).
+  assert (Ha : after_or_all (rfind_dot s) = pos ls (S i)) by (unfold s, i; rewrite Els; apply after_rfind, Hl).
+  assert (Hs : slice_from s (pos ls (S i)) = Val l) by (unfold s, i; rewrite Els; apply slice_label, Hl).
+  rewrite !Ha, Hs.
+  assert (Esuf : (if w then pos ls (S i) else spos X ls suf) = spos X ls (if w then Some (S i) else suf))
+    by (destruct w; reflexivity).
+  rewrite !Esuf. set (suf1 := if w then Some (S i) else suf).
+  destruct (lo =? hi); [reflexivity|].
+  destruct (find T l lo hi) as [[f|]|]; [|reflexivity|reflexivity].
+  destruct (node_info T f) as [[[[lo' hi'] ty] w']|]; [|reflexivity].
+  assert (Hrec : forall sfx o, sfx = spos X ls o ->
+    match rfind_dot s with
+    | Some d => match slice_to s d with
+                | Val s' => ps_loop T fuel lo' hi' s' sfx w'
+                | Panic => Panic
+                end
+    | None => Val sfx
+    end = match walk_tab T lo' hi' w' rest (S i) o with
+          | Val o' => Val (spos X ls o')
+          | Panic => Panic
+          end).
+  { intros sfx o ->. unfold s. rewrite (rfind_join l rest Hl).
+    destruct rest as [|l2 rest]; [reflexivity|].
+    rewrite slice_to_dot.
+    replace (S i) with (length (pre ++ [l])) by (rewrite app_length; cbn; unfold i; lia).
+    apply IH.
+    - rewrite Els, <- app_assoc. reflexivity.
+    - discriminate.
+    - unfold s in Hfuel. rewrite (join_rev_cons l (l2 :: rest)) in Hfuel by discriminate.
+      rewrite app_length in Hfuel. cbn [length] in Hfuel. lia. }
+  destruct (ty =? NODE_TYPE_NORMAL T).
+  - apply (Hrec _ (Some (S i))). reflexivity.
+  - destruct (ty =? NODE_TYPE_EXCEPTION T).
+    + cbn [spos]. rewrite Els. unfold i. rewrite pos_here. reflexivity.
+    + apply (Hrec _ suf1). reflexivity.
+Qed.
+
+(** the last [k] labels start at [pos ls k] *)
+Lemma slice_pos ls k : ls <> [] -> (1 <= k)%nat ->
+  slice_from (join_dot (rev ls)) (pos ls k) = Val (join_dot (rev (firstn k ls))).
+Proof.
+  intros Hne Hk. unfold pos, slice_from.
+  destruct (skipn k ls) as [|x r] eqn:E.
+  - cbn [Nat.leb skipn]. f_equal. f_equal. f_equal.
+    rewrite <- (firstn_skipn k ls) at 1. rewrite E, app_nil_r. reflexivity.
+  - assert (Hf : firstn k ls <> []) by (destruct ls; [congruence|]; destruct k; [lia|discriminate]).
+    assert (Els : ls = firstn k ls ++ x :: r) by (rewrite <- E; symmetry; apply firstn_skipn).
+    set (f := firstn k ls) in *. clearbody f. subst ls. rewrite rev_app_distr.
+    rewrite join_dot_app; [|apply rev_cons_nonempty|destruct f; [congruence|apply rev_cons_nonempty]].
+    set (a := join_dot (rev (x :: r))). set (b := join_dot (rev f)).
+    replace (S (length a) <=? length (a ++ DOT :: b))%nat with true
+      by (symmetry; apply Nat.leb_le; rewrite app_length; cbn [length]; lia).
+    replace (S (length a)) with (length (a ++ [DOT])) by (rewrite app_length; cbn; lia).
+    replace (a ++ DOT :: b) with ((a ++ [DOT]) ++ b) by (rewrite <- app_assoc; reflexivity).
+    rewrite skipn_app_exact. reflexivity.
+Qed.
+
+Lemma join_dot_nil ls : join_dot ls = [] -> ls = [] \/ ls = [[]].
+Proof.
+  destruct ls as [|l [|l2 ls]]; cbn [join_dot]; intros H.
+  - left. reflexivity.
+  - right. rewrite H. reflexivity.
+  - apply app_eq_nil in H as [_ H]. discriminate.
+Qed.
+
+Lemma dom_labels_nonempty d : dom_labels d <> [].
+Proof.
+  unfold dom_labels. pose proof (split_dot_nonempty d) as H. destruct (split_dot d); [congruence|apply rev_cons_nonempty].
+Qed.
+
+Lemma dom_labels_nodot d : Forall nodot (dom_labels d).
+Proof. unfold dom_labels. apply Forall_rev, split_dot_nodot. Qed.
+
+Lemma join_dom_labels d : join_dot (rev (dom_labels d)) = d.
+Proof. unfold dom_labels. rewrite rev_involutive. apply join_split. Qed.
+
+(** [string_label_refinement]: for EVERY table and EVERY byte string, the index/slice model of
+    [public_suffix] is the label-level loop on the labels of [domain.split('.')]: it panics exactly
+    when that loop panics (a table index out of range) or ends in an exception node at the very first
+    label ([suffix = domain.len() + 1 ..]), and otherwise returns the last [k] labels of the name,
+    cut at a label boundary, where [k] is the loop's answer (1 if it found nothing). *)
+Theorem string_label_refinement T d :
+  public_suffix T d =
+    match walk_tab T 0 (NUM_TLD T) false (dom_labels d) 0 None with
+    | Panic => Panic
+    | Val (Some O) => Panic
+    | Val o => Val (last_labels (olen o) d)
+    end.
+Proof.
+  unfold public_suffix.
+  pose proof (ps_loop_walk T (length d) (dom_labels d) (dom_labels_nodot d) (dom_labels d) []
+                (S (length d)) 0 (NUM_TLD T) false None eq_refl (dom_labels_nonempty d)) as H.
+  rewrite join_dom_labels in H. cbn [spos length] in H. rewrite H by lia. clear H.
+  destruct (walk_tab T 0 (NUM_TLD T) false (dom_labels d) 0 None) as [o|]; [|reflexivity].
+  pose proof (dom_labels_nonempty d) as Hne.
+  assert (Hafter : after_or_all (rfind_dot d) = pos (dom_labels d) 1).
+  { destruct (dom_labels d) as [|l rest] eqn:E; [congruence|].
+    pose proof (dom_labels_nodot d) as Hnd. rewrite E in Hnd. inversion Hnd as [|? ? Hl _]; subst.
+    pose proof (after_rfind [] l rest Hl) as H. cbn [app length] in H. rewrite <- H.
+    rewrite <- E, join_dom_labels. reflexivity. }
+  assert (Hslice : forall k, (1 <= k)%nat -> slice_from d (pos (dom_labels d) k) = Val (last_labels k d)).
+  { intros k Hk. pose proof (slice_pos (dom_labels d) k Hne Hk) as H. rewrite join_dom_labels in H. exact H. }
+  destruct o as [[|k]|]; cbn [spos olen].
+  - (* exception node at the first label *)
+    assert (Hp : pos (dom_labels d) 0 = S (length d)).
+    { unfold pos. cbn [skipn]. destruct (dom_labels d) eqn:E; [congruence|]. rewrite <- E, join_dom_labels. reflexivity. }
+    rewrite Hp. replace (S (length d) =? length d)%nat with false by (symmetry; apply Nat.eqb_neq; lia).
+    unfold slice_from. replace (S (length d) <=? length d)%nat with false by (symmetry; apply Nat.leb_gt; lia).
+    reflexivity.
+  - destruct (Nat.eqb_spec (pos (dom_labels d) (S k)) (length d)) as [E|E].
+    + (* the suffix found is the empty last label: the fall-back computes the same thing *)
+      rewrite Hafter, (Hslice 1%nat) by lia.
+      pose proof (Hslice (S k) ltac:(lia)) as H. rewrite E in H.
+      unfold slice_from in H. rewrite Nat.leb_refl, skipn_all in H. injection H as H.
+      f_equal. rewrite <- H. unfold last_labels in *. symmetry in H.
+      apply join_dot_nil in H. destruct (dom_labels d) as [|l rest]; [congruence|].
+      cbn [firstn] in *. destruct H as [H|H].
+      * exfalso. revert H. apply rev_cons_nonempty.
+      * assert (H' : rev (rev (l :: firstn k rest)) = rev [[]]) by (f_equal; exact H).
+        rewrite rev_involutive in H'. cbn [rev app] in H'. injection H' as -> _.
+        destruct rest; reflexivity.
+    + apply Hslice. lia.
+  - rewrite Nat.eqb_refl, Hafter. apply Hslice. lia.
+Qed.
+
+(** * E. the label-level loop on the table is the abstract walk on the decoded trie *)
+Notation trie := (@PslWalk.trie bytes).
+Notation lookup := (PslWalk.lookup beq).
+Notation walk := (PslWalk.walk beq).
+
+Definition ntype_of (T : table) (ty : N) : ntype :=
+  if ty =? NODE_TYPE_NORMAL T then TNormal
+  else if ty =? NODE_TYPE_EXCEPTION T then TExc
+  else TParent.
+
+(** [cs] is what the table says about the nodes [lo, hi) and, recursively, their children *)
+Inductive repr (T : table) : list trie -> N -> N -> Prop :=
+| repr_nil lo hi : hi <= lo -> repr T [] lo hi
+| repr_cons l ty w cs' cs lo hi lo' hi' tyN :
+    lo < hi ->
+    node_label T lo = Val l ->
+    node_info T lo = Val (lo', hi', tyN, w) ->
+    ty = ntype_of T tyN ->
+    repr T cs' lo' hi' ->
+    repr T cs (lo + 1) hi ->
+    repr T (Node l ty w cs' :: cs) lo hi.
+
+(** siblings strictly increasing (in the order [find] uses), recursively *)
+Inductive swf : list trie -> Prop :=
+| swf_nil : swf []
+| swf_cons l ty w cs' cs :
+    (forall c, In c cs -> blt l (tlabel c) = true) -> swf cs' -> swf cs -> swf (Node l ty w cs' :: cs).
+
+(** the table as a trie; [fuel] bounds siblings + depth *)
+Fixpoint decode (T : table) (fuel : nat) (lo : N) (cnt : nat) : option (list trie) :=
+  match cnt with
+  | O => Some []
+  | S cnt' =>
+      match fuel with
+      | O => None
+      | S fuel' =>
+          match node_label T lo, node_info T lo with
+          | Val l, Val (lo', hi', ty, w) =>
+              match decode T fuel' lo' (N.to_nat (hi' - lo')), decode T fuel' (lo + 1) cnt' with
+              | Some cs', Some cs => Some (Node l (ntype_of T ty) w cs' :: cs)
+              | _, _ => None
+              end
+          | _, _ => None
+          end
+      end
+  end.
+
+Lemma decode_repr T : forall fuel lo cnt cs,
+  decode T fuel lo cnt = Some cs -> repr T cs lo (lo + N.of_nat cnt).
+Proof.
+  induction fuel as [|fuel IH]; intros lo [|cnt] cs H; cbn [decode] in H.
+  - injection H as <-. apply repr_nil. lia.
+  - discriminate.
+  - injection H as <-. apply repr_nil. lia.
+  - destruct (node_label T lo) as [l|] eqn:El; [|discriminate].
+    destruct (node_info T lo) as [[[[lo' hi'] ty] w]|] eqn:Ei; [|discriminate].
+    destruct (decode T fuel lo' (N.to_nat (hi' - lo'))) as [cs'|] eqn:E1; [|discriminate].
+    destruct (decode T fuel (lo + 1) cnt) as [cs0|] eqn:E2; [|discriminate].
+    injection H as <-.
+    eapply repr_cons; [lia|exact El|exact Ei|reflexivity| |].
+    + destruct (N.leb_spec hi' lo') as [Hle|Hgt].
+      * replace (N.to_nat (hi' - lo')) with O in E1 by lia.
+        destruct fuel; cbn [decode] in E1; injection E1 as <-; apply repr_nil; exact Hle.
+      * apply IH in E1. replace (lo' + N.of_nat (N.to_nat (hi' - lo'))) with hi' in E1 by lia. exact E1.
+    + apply IH in E2. replace (lo + N.of_nat (S cnt)) with (lo + 1 + N.of_nat cnt) by lia. exact E2.
+Qed.
+
+(** boolean check of [swf]: adjacent siblings compared, [fuel] as for [decode] *)
+Fixpoint swf_b (fuel : nat) (cs : list trie) : bool :=
+  match cs with
+  | [] => true
+  | Node l _ _ cs' :: r =>
+      match fuel with
+      | O => false
+      | S fuel' =>
+          match r with [] => true | c :: _ => blt l (tlabel c) end && swf_b fuel' cs' && swf_b fuel' r
+      end
+  end.
+
+Lemma swf_b_head fuel : forall cs, swf_b fuel cs = true -> swf cs /\
+  forall l0, match cs with [] => True | c :: _ => blt l0 (tlabel c) = true end ->
+             forall c, In c cs -> blt l0 (tlabel c) = true.
+Proof.
+  induction fuel as [|fuel IH]; intros [|[l ty w cs'] r] H; cbn [swf_b] in H.
+  - split; [constructor|intros l0 _ c []].
+  - discriminate.
+  - split; [constructor|intros l0 _ c []].
+  - apply andb_true_iff in H as [H H3]. apply andb_true_iff in H as [H1 H2].
+    destruct (IH _ H2) as [Hs' _]. destruct (IH _ H3) as [Hs Hall].
+    assert (Hhead : forall c, In c r -> blt l (tlabel c) = true).
+    { apply Hall. destruct r; [exact I|exact H1]. }
+    split; [constructor; assumption|].
+    intros l0 Hl0 c [<-|Hin]; [exact Hl0|]. cbn [tlabel] in Hl0.
+    eapply blt_trans; [exact Hl0|]. apply Hhead, Hin.
+Qed.
+
+Lemma swf_b_sound fuel cs : swf_b fuel cs = true -> swf cs.
+Proof. intros H. apply (swf_b_head fuel cs H). Qed.
+
+Lemma swf_wf cs : swf cs -> wf cs.
+Proof.
+  induction 1 as [|l ty w cs' cs Hlt _ IH' _ IH]; constructor; auto.
+  intros Hin. apply in_map_iff in Hin as (c & Ec & Hc). specialize (Hlt c Hc).
+  rewrite Ec, blt_irrefl in Hlt. discriminate.
+Qed.
+
+Lemma swf_children l ty w cs' cs : swf cs -> In (Node l ty w cs') cs -> swf cs'.
+Proof. induction 1; cbn; [easy|]. intros [E|Hin]; [inversion E; subst; assumption|auto]. Qed.
+
+Lemma repr_length T cs lo hi : repr T cs lo hi -> length cs = N.to_nat (hi - lo).
+Proof.
+  induction 1 as [lo hi H|l ty w cs' cs lo hi lo' hi' tyN Hlt _ _ _ _ _ _ IH]; [cbn; lia|].
+  cbn [length]. rewrite IH. lia.
+Qed.
+
+Definition dflt : trie := Node [] TParent false [].
+
+Lemma repr_nth T cs lo hi : repr T cs lo hi -> forall i, lo <= i < hi ->
+  exists l ty w cs' lo' hi' tyN,
+    nth (N.to_nat (i - lo)) cs dflt = Node l ty w cs' /\ In (Node l ty w cs') cs /\
+    node_label T i = Val l /\ node_info T i = Val (lo', hi', tyN, w) /\
+    ty = ntype_of T tyN /\ repr T cs' lo' hi'.
+Proof.
+  induction 1 as [lo hi H|l ty w cs' cs lo hi lo' hi' tyN Hlt Hl Hi Hty Hr' _ _ IH]; intros i Hrange; [lia|].
+  destruct (N.eq_dec i lo) as [->|Hne].
+  - exists l, ty, w, cs', lo', hi', tyN. replace (N.to_nat (lo - lo)) with O by lia.
+    repeat split; auto. now left.
+  - destruct (IH i ltac:(lia)) as (l1 & ty1 & w1 & cs1 & lo1 & hi1 & tyN1 & Hn & Hin & H1 & H2 & H3 & H4).
+    exists l1, ty1, w1, cs1, lo1, hi1, tyN1.
+    replace (N.to_nat (i - lo)) with (S (N.to_nat (i - (lo + 1)))) by lia.
+    repeat split; auto. now right.
+Qed.
+
+Lemma swf_nth cs : swf cs -> forall a b, (a < b)%nat -> (b < length cs)%nat ->
+  blt (tlabel (nth a cs dflt)) (tlabel (nth b cs dflt)) = true.
+Proof.
+  induction 1 as [|l ty w cs' cs Hlt _ _ _ IH]; intros a b Hab Hb; cbn [length] in Hb; [lia|].
+  destruct b as [|b]; [lia|]. destruct a as [|a].
+  - cbn [nth tlabel]. apply Hlt. apply nth_In. lia.
+  - cbn [nth]. apply IH; lia.
+Qed.
+
+Lemma lookup_in l cs c : wf cs -> In c cs -> tlabel c = l -> lookup l cs = Some c.
+Proof.
+  intros Hwf Hin Hl. destruct (lookup l cs) as [c'|] eqn:E.
+  - destruct (lookup_some beq beq_spec _ _ _ Hwf E) as (_ & _ & Hu). f_equal. symmetry. apply Hu; assumption.
+  - exfalso. exact (lookup_none beq beq_spec _ _ E c Hin Hl).
+Qed.
+
+Lemma lookup_absent l cs : (forall c, In c cs -> tlabel c <> l) -> lookup l cs = None.
+Proof.
+  induction cs as [|c cs IH]; intros H; cbn [PslWalk.lookup]; [reflexivity|].
+  destruct (beq_spec (tlabel c) l) as [E|_]; [exfalso; apply (H c); [now left|exact E]|].
+  apply IH. intros c' Hc'. apply H. now right.
+Qed.
+
+(** [find_correct]: on a range that the trie [cs] represents, with strictly increasing labels, the
+    binary search never panics and finds exactly what a linear search for the label finds: nothing,
+    or the index of the one node carrying it (whose decoded fields are those of the trie node). *)
+Theorem find_correct T cs lo hi l : repr T cs lo hi -> swf cs ->
+  (find T l lo hi = Val None /\ lookup l cs = None)
+  \/ (exists f ty w cs' lo' hi' tyN,
+        find T l lo hi = Val (Some f) /\ lookup l cs = Some (Node l ty w cs') /\
+        node_info T f = Val (lo', hi', tyN, w) /\ ty = ntype_of T tyN /\ repr T cs' lo' hi' /\ swf cs').
+Proof.
+  intros Hr Hs. pose proof (repr_length T cs lo hi Hr) as Hlen.
+  set (lab := fun i => tlabel (nth (N.to_nat (i - lo)) cs dflt)).
+  destruct (find_loop_spec T lab l (S (N.to_nat (hi - lo))) lo hi) as [(f & Hf & Hrange & Hl)|(Hf & Hn)].
+  - intros i Hi. destruct (repr_nth T cs lo hi Hr i Hi) as (l1 & ty1 & w1 & cs1 & lo1 & hi1 & tyN1 & Hn & _ & H1 & _).
+    unfold lab. rewrite Hn. exact H1.
+  - intros i j H1 H2 H3. unfold lab. apply swf_nth; [exact Hs|lia|lia].
+  - lia.
+  - right. destruct (repr_nth T cs lo hi Hr f Hrange) as (l1 & ty1 & w1 & cs1 & lo1 & hi1 & tyN1 & Hn & Hin & H1 & H2 & H3 & H4).
+    unfold lab in Hl. rewrite Hn in Hl. cbn [tlabel] in Hl. subst l1.
+    exists f, ty1, w1, cs1, lo1, hi1, tyN1. split; [exact Hf|]. split.
+    + apply lookup_in; [apply swf_wf, Hs|exact Hin|reflexivity].
+    + split; [exact H2|]. split; [exact H3|]. split; [exact H4|]. eapply swf_children; eauto.
+  - left. split; [exact Hf|]. apply lookup_absent. intros c Hc E.
+    apply (In_nth _ _ dflt) in Hc as (k & Hk & Ek).
+    apply (Hn (lo + N.of_nat k)); [lia|]. unfold lab.
+    replace (N.to_nat (lo + N.of_nat k - lo)) with k by lia. rewrite Ek. exact E.
+Qed.
+
+Theorem walk_tab_walk T : forall rest cs lo hi w i suf, repr T cs lo hi -> swf cs ->
+  walk_tab T lo hi w rest i suf = Val (walk cs w rest i suf).
+Proof.
+  induction rest as [|l rest IH]; intros cs lo hi w i suf Hr Hs; [reflexivity|].
+  cbn [walk_tab PslWalk.walk].
+  destruct (N.eqb_spec lo hi) as [E|E].
+  - pose proof (repr_length T cs lo hi Hr) as Hlen. destruct cs; [reflexivity|cbn [length] in Hlen; lia].
+  - destruct (find_correct T cs lo hi l Hr Hs) as [(Hf & Hl)|(f & ty & w' & cs' & lo' & hi' & tyN & Hf & Hl & Hi & Hty & Hr' & Hs')].
+    + rewrite Hf, Hl. reflexivity.
+    + rewrite Hf, Hl, Hi. subst ty. unfold ntype_of.
+      destruct (tyN =? NODE_TYPE_NORMAL T); [apply IH; assumption|].
+      destruct (tyN =? NODE_TYPE_EXCEPTION T); [reflexivity|apply IH; assumption].
+Qed.
+
+(** * F. any table that passes [table_ok] against a rule list *)
+Definition no_top_exc (cs : list trie) : bool :=
+  forallb (fun c => match c with Node _ TExc _ _ => false | _ => true end) cs.
+
+Definition kind_eqb (a b : kind) : bool :=
+  match a, b with KNormal, KNormal | KWild, KWild | KExc, KExc => true | _, _ => false end.
+Definition rule_eqb (a b : rule) : bool := kind_eqb (fst a) (fst b) && Check.list_eqb beq (snd a) (snd b).
+
+(** The decidable well-formedness of a table against a rule list: every node reachable from the
+    top-level range decodes without an out-of-range access; siblings are strictly increasing; no
+    top-level node is an exception node (there [public_suffix] would slice past the end); and the rules
+    the table represents are exactly [R], in trie order. *)
+Definition table_ok (fuel : nat) (T : table) (R : list rule) : bool :=
+  match decode T fuel 0 (N.to_nat (NUM_TLD T)) with
+  | None => false
+  | Some cs => swf_b fuel cs && no_top_exc cs && Check.list_eqb rule_eqb (forest_rules cs) R
+  end.
+
+Lemma list_eqb_eq {A} (e : A -> A -> bool) : (forall x y, e x y = true -> x = y) ->
+  forall a b, Check.list_eqb e a b = true -> a = b.
+Proof.
+  intros He. induction a as [|x a IH]; intros [|y b] H; cbn [Check.list_eqb] in H; try discriminate; [reflexivity|].
+  apply andb_true_iff in H as [H1 H2]. f_equal; [apply He, H1|apply IH, H2].
+Qed.
+
+Lemma rule_eqb_eq (a b : rule) : rule_eqb a b = true -> a = b.
+Proof.
+  destruct a as [ka la], b as [kb lb]. unfold rule_eqb. cbn [fst snd]. intros H.
+  apply andb_true_iff in H as [H1 H2]. f_equal.
+  - destruct ka, kb; cbn in H1; congruence.
+  - apply (list_eqb_eq beq); [intros x y; apply beq_eq|exact H2].
+Qed.
+
+Lemma lookup_In l (cs : list trie) c : lookup l cs = Some c -> In c cs.
+Proof.
+  induction cs as [|c0 cs IH]; cbn [PslWalk.lookup]; [discriminate|].
+  destruct (beq (tlabel c0) l); [intros H; injection H as <-; now left|intros H; right; auto].
+Qed.
+
+Lemma walk_nonzero : forall rest (cs : list trie) w i suf, (1 <= i)%nat -> suf <> Some O ->
+  walk cs w rest i suf <> Some O.
+Proof.
+  induction rest as [|l rest IH]; intros cs w i suf Hi Hs; cbn [PslWalk.walk]; [exact Hs|].
+  assert (H1 : (if w then Some (S i) else suf) <> Some O) by (destruct w; [discriminate|exact Hs]).
+  destruct (lookup l cs) as [[lc ty w' cs']|]; [|exact H1].
+  destruct ty; [apply IH; [lia|discriminate]|intros E; injection E as E; lia|apply IH; [lia|exact H1]].
+Qed.
+
+Lemma walk_top_nonzero (cs : list trie) rest : no_top_exc cs = true -> walk cs false rest 0 None <> Some O.
+Proof.
+  intros Hn. destruct rest as [|l rest]; cbn [PslWalk.walk]; [discriminate|].
+  destruct (lookup l cs) as [[lc ty w' cs']|] eqn:E; [|discriminate].
+  destruct ty.
+  - apply walk_nonzero; [lia|discriminate].
+  - apply lookup_In in E. unfold no_top_exc in Hn. rewrite forallb_forall in Hn. specialize (Hn _ E). discriminate.
+  - apply walk_nonzero; [lia|discriminate].
+Qed.
+
+(** the empty-label guard of [effective_tld_plus_one] / [is_effective_tld] *)
+Lemma tl_split_empty r :
+  existsb is_nil (tl (split_dot r)) = ends_with_dot r || contains_dotdot r.
+Proof.
+  induction r as [|c r IH]; [reflexivity|].
+  destruct (N.eqb_spec c DOT) as [->|Hne].
+  - cbn [split_dot]. rewrite N.eqb_refl. cbn [tl].
+    pose proof (split_dot_nonempty r) as Hn.
+    destruct r as [|c' r'].
+    + reflexivity.
+    + destruct (split_dot (c' :: r')) as [|h t] eqn:E; [congruence|].
+      cbn [existsb]. cbn [tl] in IH. rewrite IH.
+      assert (Hh : is_nil h = (c' =? DOT)).
+      { revert E. cbn [split_dot]. destruct (c' =? DOT); [intros E; injection E as <- _; reflexivity|].
+        destruct (split_dot r'); intros E; injection E as <- _; reflexivity. }
+      rewrite Hh.
+      change (ends_with_dot (DOT :: c' :: r')) with (ends_with_dot (c' :: r')).
+      change (contains_dotdot (DOT :: c' :: r')) with (((DOT =? DOT) && (c' =? DOT)) || contains_dotdot (c' :: r')).
+      rewrite N.eqb_refl. cbn [andb].
+      destruct (c' =? DOT), (ends_with_dot (c' :: r')), (contains_dotdot (c' :: r')); reflexivity.
+  - destruct (split_dot_cons_nodot c r) as (l & ls & E1 & E2); [now apply N.eqb_neq|].
+    rewrite E2. rewrite E1 in IH. cbn [tl] in *. rewrite IH.
+    apply N.eqb_neq in Hne. destruct r as [|c' r']; cbn [ends_with_dot contains_dotdot]; rewrite Hne; reflexivity.
+Qed.
+
+Lemma has_empty_label_spec d :
+  has_empty_label d = match d with [] => true | _ => empty_label_guard d end.
+Proof.
+  unfold has_empty_label, empty_label_guard. destruct d as [|c r]; [reflexivity|].
+  destruct (N.eqb_spec c DOT) as [->|Hne].
+  - cbn [split_dot starts_with_dot]. rewrite N.eqb_refl. reflexivity.
+  - destruct (split_dot_cons_nodot c r) as (l & ls & E1 & E2); [now apply N.eqb_neq|].
+    pose proof (tl_split_empty (c :: r)) as H. rewrite E2 in *. cbn [tl] in H. cbn [existsb is_nil orb].
+    rewrite H. cbn [starts_with_dot]. apply N.eqb_neq in Hne. rewrite Hne. reflexivity.
+Qed.
+
+Lemma beq_length a b : beq a b = true -> length a = length b.
+Proof. intros H. apply beq_eq in H. congruence. Qed.
+
+(** the name as  (labels left of the suffix) . (last [k] labels) *)
+Lemma split_at_suffix d k : (k < length (dom_labels d))%nat -> (1 <= k)%nat ->
+  exists x r, skipn k (dom_labels d) = x :: r /\ nodot x /\
+    d = join_dot (rev (x :: r)) ++ DOT :: last_labels k d /\
+    dom_labels d = firstn k (dom_labels d) ++ x :: r /\ length (firstn k (dom_labels d)) = k.
+Proof.
+  intros Hk H1. set (ls := dom_labels d) in *.
+  destruct (skipn k ls) as [|x r] eqn:E.
+  - exfalso. pose proof (skipn_length k ls) as H. rewrite E in H. cbn [length] in H. lia.
+  - exists x, r. split; [reflexivity|].
+    assert (Els : ls = firstn k ls ++ x :: r) by (rewrite <- E; symmetry; apply firstn_skipn).
+    split.
+    + pose proof (dom_labels_nodot d) as Hnd. fold ls in Hnd. rewrite Forall_forall in Hnd. apply Hnd.
+      rewrite Els. apply in_or_app. right. now left.
+    + split; [|split; [exact Els|apply firstn_length_le; lia]].
+      rewrite <- (join_dom_labels d) at 1. fold ls. rewrite Els at 1. rewrite rev_app_distr.
+      unfold last_labels. fold ls. apply join_dot_app; [apply rev_cons_nonempty|].
+      destruct ls as [|y ls']; [cbn in Hk; lia|]. destruct k; [lia|]. cbn [firstn]. apply rev_cons_nonempty.
+Qed.
+
+Lemma last_labels_all d k : (length (dom_labels d) <= k)%nat -> last_labels k d = d.
+Proof. intros H. unfold last_labels. rewrite firstn_all2 by exact H. apply join_dom_labels. Qed.
+
+Lemma etld1_of_suffix T d k : (1 <= k)%nat -> public_suffix T d = Val (last_labels k d) ->
+  effective_tld_plus_one T d =
+    Val (if empty_label_guard d then inr EmptyLabel
+         else if (length (dom_labels d) <=? k)%nat then inr CannotDeriveETldPlus1
+         else inl (last_labels (S k) d)).
+Proof.
+  intros Hk Hps. unfold effective_tld_plus_one. destruct (empty_label_guard d); [reflexivity|].
+  rewrite Hps. destruct (Nat.leb_spec (length (dom_labels d)) k) as [Hm|Hm].
+  - rewrite last_labels_all by exact Hm. rewrite Nat.leb_refl. reflexivity.
+  - destruct (split_at_suffix d k Hm Hk) as (x & r & E & Hx & Ed & Els & Hlen).
+    set (a := join_dot (rev (x :: r))) in *. set (b := last_labels k d) in *.
+    assert (Hlen_d : length d = (length a + 1 + length b)%nat) by (rewrite Ed at 1; rewrite app_length; cbn [length]; lia).
+    replace (length d <=? length b)%nat with false by (symmetry; apply Nat.leb_gt; lia).
+    replace (length d - length b - 1)%nat with (length a) by lia.
+    assert (Hnth : nth_error d (length a) = Some DOT).
+    { rewrite Ed at 1. rewrite nth_error_app2 by lia. rewrite Nat.sub_diag. reflexivity. }
+    rewrite Hnth, N.eqb_refl. cbn [negb].
+    assert (Hto : slice_to d (length a) = Val a).
+    { unfold slice_to. replace (length a <=? length d)%nat with true by (symmetry; apply Nat.leb_le; lia).
+      rewrite Ed at 1. rewrite firstn_app_exact. reflexivity. }
+    rewrite Hto. unfold a.
+    rewrite (after_rfind (firstn k (dom_labels d)) x r Hx), <- Els, Hlen.
+    pose proof (slice_pos (dom_labels d) (S k) (dom_labels_nonempty d) ltac:(lia)) as Hsl.
+    rewrite join_dom_labels in Hsl. rewrite Hsl. reflexivity.
+Qed.
+
+Lemma is_etld_of_suffix T d k : (1 <= k)%nat -> public_suffix T d = Val (last_labels k d) ->
+  is_effective_tld T d =
+    Val (if empty_label_guard d then false else (length (dom_labels d) <=? k)%nat).
+Proof.
+  intros Hk Hps. unfold is_effective_tld. destruct (empty_label_guard d); [reflexivity|].
+  rewrite Hps. f_equal. destruct (Nat.leb_spec (length (dom_labels d)) k) as [Hm|Hm].
+  - rewrite last_labels_all by exact Hm. apply beq_refl.
+  - destruct (split_at_suffix d k Hm Hk) as (x & r & E & Hx & Ed & Els & Hlen).
+    destruct (beq (last_labels k d) d) eqn:Eb; [|reflexivity].
+    apply beq_length in Eb. rewrite Ed in Eb at 2. rewrite app_length in Eb. cbn [length] in Eb. lia.
+Qed.
+
+Section Generic.
+  Variables (fuel : nat) (T : table) (R : list rule).
+  Hypothesis Hok : table_ok fuel T R = true.
+
+  Lemma ok_suffix d : (1 <= psl_len beq R (dom_labels d))%nat /\
+    public_suffix T d = Val (last_labels (psl_len beq R (dom_labels d)) d).
+  Proof.
+    unfold table_ok in Hok.
+    destruct (decode T fuel 0 (N.to_nat (NUM_TLD T))) as [cs|] eqn:Ed; [|discriminate].
+    apply andb_true_iff in Hok as [H12 H3]. apply andb_true_iff in H12 as [H1 H2].
+    apply decode_repr in Ed. replace (0 + N.of_nat (N.to_nat (NUM_TLD T))) with (NUM_TLD T) in Ed by lia.
+    apply swf_b_sound in H1.
+    apply (list_eqb_eq rule_eqb rule_eqb_eq) in H3.
+    pose proof (walk_tab_walk T (dom_labels d) cs 0 (NUM_TLD T) false O None Ed H1) as Hw.
+    pose proof (walk_top_nonzero cs (dom_labels d) H2) as Hnz.
+    pose proof (walk_correct beq beq_spec cs (dom_labels d) (swf_wf cs H1)) as Hc.
+    rewrite H3 in Hc. rewrite <- Hc.
+    rewrite string_label_refinement, Hw.
+    destruct (walk cs false (dom_labels d) 0 None) as [[|k]|]; [congruence| |]; cbn [olen]; split; (lia || reflexivity).
+  Qed.
+
+  Theorem public_suffix_correct_gen d : public_suffix T d = Val (psl_suffix R d).
+  Proof. apply ok_suffix. Qed.
+
+  (** the eTLD+1 is the spec's; the error kind is [EmptyLabel] exactly for the guard *)
+  Theorem etld1_correct_gen d :
+    effective_tld_plus_one T d =
+      Val (match psl_etld1 R d with
+           | Some r => inl r
+           | None => inr (if empty_label_guard d then EmptyLabel else CannotDeriveETldPlus1)
+           end).
+  Proof.
+    destruct (ok_suffix d) as [Hk Hps]. rewrite (etld1_of_suffix T d _ Hk Hps).
+    unfold psl_etld1. rewrite has_empty_label_spec.
+    destruct d as [|c r] eqn:Ed.
+    - change (dom_labels []) with [@nil N] in *. cbn [length empty_label_guard starts_with_dot ends_with_dot contains_dotdot orb].
+      replace (1 <=? psl_len beq R [[]])%nat with true by (symmetry; apply Nat.leb_le; exact Hk). reflexivity.
+    - rewrite <- Ed in *. destruct (empty_label_guard d); [reflexivity|].
+      destruct (Nat.leb_spec (length (dom_labels d)) (psl_len beq R (dom_labels d))) as [H|H].
+      + replace (psl_len beq R (dom_labels d) <? length (dom_labels d))%nat with false by (symmetry; apply Nat.ltb_ge; lia).
+        reflexivity.
+      + replace (psl_len beq R (dom_labels d) <? length (dom_labels d))%nat with true by (symmetry; apply Nat.ltb_lt; lia).
+        reflexivity.
+  Qed.
+
+  Theorem is_etld_correct_gen d : d <> [] -> is_effective_tld T d = Val (psl_is_suffix R d).
+  Proof.
+    intros Hd. destruct (ok_suffix d) as [Hk Hps]. rewrite (is_etld_of_suffix T d _ Hk Hps).
+    unfold psl_is_suffix. rewrite has_empty_label_spec. destruct d as [|c r]; [congruence|].
+    destruct (empty_label_guard (c :: r)); reflexivity.
+  Qed.
+
+  (** the empty name: [is_effective_tld("")] answers [true] (its only label is empty, but none of the
+      three textual tests of the guard sees it) *)
+  Theorem is_etld_empty : is_effective_tld T [] = Val true.
+  Proof.
+    destruct (ok_suffix []) as [Hk Hps]. rewrite (is_etld_of_suffix T [] _ Hk Hps).
+    cbn [empty_label_guard starts_with_dot ends_with_dot contains_dotdot orb].
+    f_equal. apply Nat.leb_le. exact Hk.
+  Qed.
+
+  Theorem no_panic_gen d :
+    public_suffix T d <> Panic /\ effective_tld_plus_one T d <> Panic /\ is_effective_tld T d <> Panic.
+  Proof.
+    destruct (ok_suffix d) as [Hk Hps].
+    rewrite Hps, (etld1_of_suffix T d _ Hk Hps), (is_etld_of_suffix T d _ Hk Hps). repeat split; discriminate.
+  Qed.
+End Generic.
+
+(** * G. what the spec's answers look like: cut at label boundaries, one label more *)
+Lemma split_dot_nodot_one l : nodot l -> split_dot l = [l].
+Proof.
+  induction l as [|c l IH]; intros H; [reflexivity|].
+  assert (Hc : (c =? DOT) = false) by (apply N.eqb_neq; intros E; apply H; now left).
+  destruct (split_dot_cons_nodot c l Hc) as (l0 & ls & E1 & E2). rewrite E2.
+  rewrite IH in E1 by (intros Hin; apply H; now right). injection E1 as <- <-. reflexivity.
+Qed.
+
+Lemma split_dot_app_dot l r : nodot l -> split_dot (l ++ DOT :: r) = l :: split_dot r.
+Proof.
+  induction l as [|c l IH]; intros H.
+  - cbn [app split_dot]. rewrite N.eqb_refl. reflexivity.
+  - assert (Hc : (c =? DOT) = false) by (apply N.eqb_neq; intros E; apply H; now left).
+    change ((c :: l) ++ DOT :: r) with (c :: (l ++ DOT :: r)).
+    destruct (split_dot_cons_nodot c (l ++ DOT :: r) Hc) as (l0 & ls & E1 & E2). rewrite E2.
+    rewrite IH in E1 by (intros Hin; apply H; now right). injection E1 as <- <-. reflexivity.
+Qed.
+
+Lemma split_join ls : ls <> [] -> Forall nodot ls -> split_dot (join_dot ls) = ls.
+Proof.
+  induction ls as [|l ls IH]; intros Hne Hnd; [congruence|].
+  inversion Hnd as [|? ? Hl Hls]; subst. destruct ls as [|l2 ls].
+  - cbn [join_dot]. apply split_dot_nodot_one, Hl.
+  - rewrite join_dot_cons by discriminate. rewrite split_dot_app_dot by exact Hl.
+    rewrite IH; [reflexivity|discriminate|exact Hls].
+Qed.
+
+Lemma firstn_nonempty {A} k (l : list A) : (1 <= k)%nat -> l <> [] -> firstn k l <> [].
+Proof. destruct k; [lia|]. destruct l; [congruence|discriminate]. Qed.
+
+(** the labels of the last [k] labels of [d] are the last [k] labels of [d] *)
+Theorem labels_last_labels k d : (1 <= k)%nat -> dom_labels (last_labels k d) = firstn k (dom_labels d).
+Proof.
+  intros Hk. unfold last_labels. unfold dom_labels at 1. rewrite split_join.
+  - apply rev_involutive.
+  - pose proof (firstn_nonempty k (dom_labels d) Hk (dom_labels_nonempty d)) as H.
+    destruct (firstn k (dom_labels d)); [congruence|apply rev_cons_nonempty].
+  - apply Forall_rev. pose proof (dom_labels_nodot d) as H. rewrite Forall_forall in *.
+    intros x Hx. apply H. rewrite <- (firstn_skipn k (dom_labels d)). apply in_or_app. now left.
+Qed.
+
+(** the last [k] labels are the whole name or what follows one of its dots *)
+Theorem last_labels_boundary k d : (1 <= k)%nat ->
+  last_labels k d = d \/ exists p, d = p ++ DOT :: last_labels k d.
+Proof.
+  intros Hk. destruct (Nat.leb_spec (length (dom_labels d)) k) as [Hm|Hm].
+  - left. apply last_labels_all, Hm.
+  - right. destruct (split_at_suffix d k Hm Hk) as (x & r & _ & _ & Ed & _). eexists. exact Ed.
+Qed.
+
+Lemma psl_etld1_some R d r : psl_etld1 R d = Some r ->
+  has_empty_label d = false /\ (psl_len beq R (dom_labels d) < length (dom_labels d))%nat /\
+  r = last_labels (S (psl_len beq R (dom_labels d))) d.
+Proof.
+  unfold psl_etld1. destruct (has_empty_label d); [discriminate|].
+  destruct (Nat.ltb_spec (psl_len beq R (dom_labels d)) (length (dom_labels d))) as [Hlt|Hge]; [|discriminate].
+  intros H. injection H as <-. auto.
+Qed.
